@@ -249,8 +249,8 @@ PLANS["C11"] = dict(
     assumptions=["keyframe positions are non-negative and not NaN (total_cmp then agrees with <); -0.0 is excluded"],
 )
 PLANS["C12"] = dict(
-    suites=[Suite("merged", 400, 30000)],
-    floors={"quick": {"op:merge": 300, "op:updchain": 1000, "op:upd": 2000}},
+    suites=[Suite("merged", 400, 30000), Suite("pos", 60, 3000)],     # `pos` carries the Repeat ordering ops (repcmp)
+    floors={"quick": {"op:merge": 300, "op:updchain": 1000, "op:upd": 2000, "op:repcmp": 64}},
     assumptions=[],
 )
 
@@ -591,6 +591,7 @@ def extra_bevy(prop, tier, seed, profiles):
     fails, checked = [], 0
     hist = {"frames": 0, "ended-frames": 0, "key-changes-by-chain": 0, "setkey-switches": 0, "two-animator-apps": 0}
     prev, cfg, dirty, chain_pending, stale, key_set = None, None, False, None, False, False
+    cur_slot, last_frame = "-", None
     blk_dyadic, blk_mag, blk_tls = True, 1.0, {}
     frame_key, other_ext, nframes = None, False, 0     # selector key at the end of the last frame; non-setkey external op since
     moved_in_frame = False                             # the chain moved the key during the last frame (select may see it only in the next one)
@@ -612,6 +613,17 @@ def extra_bevy(prop, tier, seed, profiles):
                 if tok.isdigit():
                     x = abs(f32(tok))
                     if x == x and x != float("inf"): blk_mag = max(blk_mag, x)
+        if w[0] == "evalat" and prop == "C18":
+            # while Playing the component equals the timeline evaluated at a position at most one frame old: the frame
+            # evaluates at the position it started with, when it started in state Playing
+            lf = last_frame
+            if lf and not o.startswith(("panic", "bad")) and lf["before"]["state"] == 2 and lf["before"]["enabled"] and cfg and cfg["sel"] == "none" \
+                    and int(w[2]) == lf["before"]["pos"] and w[1] == cur_slot:
+                checked += 1
+                hist["playing-value-checked"] = hist.get("playing-value-checked", 0) + 1
+                if tuple(o.split(" ")) != lf["after"]["comp"]:
+                    fail(L, "while Playing the component equals the timeline evaluated at the position of one frame ago", " ".join(lf["after"]["comp"]), o)
+            continue
         if w[0] == "terminal" and prop == "C18" and prev is not None and not o.startswith(("panic", "bad")):
             # Ended => the component holds the terminal values of the timeline that ended
             if prev["state"] == 3 and not stale:
@@ -630,6 +642,7 @@ def extra_bevy(prop, tier, seed, profiles):
         if o.startswith(("panic", "bad")): prev = None; continue
         cur = parse_bevy(o)
         if w[0] == "bapp":
+            cur_slot, last_frame = w[3], None
             cfg = dict(has_q=w[8] != "none", chain=w[7], sel=w[5])
             if cfg["has_q"]: hist["two-animator-apps"] += 1
             prev, dirty, key_set, stale = cur, False, False, False
@@ -637,6 +650,7 @@ def extra_bevy(prop, tier, seed, profiles):
             continue
         if prev is None: prev = cur; frame_key, other_ext, nframes, moved_in_frame = None, False, 0, False; continue
         if w[0] in ("enable", "breset", "settl", "setpos"): other_ext = True
+        if w[0] == "settl": cur_slot = w[1]
         if w[0] == "settl" and prev["state"] == 3: stale = True   # re-targeting while Ended does not restart (documented)
         if w[0] == "breset": stale = False
         if w[0] != "frame":
@@ -663,6 +677,25 @@ def extra_bevy(prop, tier, seed, profiles):
                 if prev["state"] == 3 and not dirty and cfg["sel"] == "none":
                     if cur["pos"] != prev["pos"]: fail(L, "position stops growing once ended", o, str(prev["pos"]))
                     if cur["comp"] != prev["comp"]: fail(L, "component rests once ended", o, str(prev["comp"]))
+            tim = tl_timing(blk_tls.get(cur_slot)) if cfg["sel"] == "none" else None
+            if tim and prev["enabled"] and not (stale and prev["state"] == 3):
+                # the state the frame decides on is a function of the position it started with (p), the delay and the
+                # total duration D = delay + cycle x (repeats + 1) of the timeline in place; exact rationals, with 4 ulps
+                # of slack at the two thresholds (binary32 sums round: DESIGN §10, F-C18b)
+                delay_q, total_q, ulp = tim
+                p_q = secs_f32_of_ns(prev["pos"])
+                hist["state-rule-checked"] = hist.get("state-rule-checked", 0) + 1
+                if cur["state"] == 1 and not p_q < delay_q + 4 * ulp:
+                    fail(L, "Waiting only while the position is before the delay", o, f"position {float(p_q)} delay {float(delay_q)}")
+                if cur["state"] == 3 and prev["state"] != 3:
+                    if total_q is None:
+                        fail(L, "never Ended for an infinitely repeating timeline", o, impl[L - 1])
+                    elif p_q < total_q - 4 * ulp:
+                        fail(L, "Ended never before the position reaches the total duration", o, f"position {float(p_q)} total {float(total_q)}")
+                if total_q is not None and prev["state"] != 3 and cur["state"] != 3 and p_q > total_q + 4 * ulp:
+                    fail(L, "Ended no later than one frame after the position reaches the total duration", o, f"position {float(p_q)} total {float(total_q)}")
+                if prev["state"] in (0, 1) and cur["state"] == 1 and p_q > delay_q + 4 * ulp:
+                    pass   # (covered by the Waiting rule above)
             if not dirty and cfg["sel"] == "none" and prev["enabled"]:
                 if cur["state"] < prev["state"]:
                     fail(L, "state only moves forward None->Waiting->Playing->Ended", o, impl[L - 1])
@@ -691,7 +724,9 @@ def extra_bevy(prop, tier, seed, profiles):
                     hist["reassign-checked"] += 1
                     if cur["pos"] != prev["pos"] + delta:
                         fail(L, "re-assigning the current key does not restart anything", o, str(prev["pos"] + delta))
-            if key_set and prev["enabled"] and not moved_in_frame and cur["key"] == prev["key"] and 3 not in prev["ev"]:
+            if key_set and prev["key"] != frame_key and prev["enabled"] and not moved_in_frame and cur["key"] == prev["key"] and 3 not in prev["ev"]:
+                # (the key now differs from the key at the end of the last frame: assignments that cancel out, k -> j -> k
+                # between two frames, are not a key change as far as the systems can see)
                 # (when the chain moved the key during the last frame, what select_animation has already seen is
                 # order-dependent, so "the key changed" is not well defined for this frame)
                 hist["setkey-switches"] += 1
@@ -702,7 +737,9 @@ def extra_bevy(prop, tier, seed, profiles):
             # start of this frame and the chain maps k -> k' (last entry for k wins, HashMap insert): this frame moves the
             # selector to k'.  (chain_animations reads the events of frame M in frame M+1.)
             if cfg["chain"] != "none" and prev.get("own_end") and prev["enabled"] and not other_ext and prev["key"] is not None \
-                    and prev["key"] == frame_key:
+                    and prev["key"] == frame_key and prev["ev"].count(3) == 1:
+                # (exactly one Ended event pending for the entity: a second one — the other animator's, finding F-C19 —
+                # would advance the chain a second time)
                 cmap = {}
                 for pair in cfg["chain"].split(","):
                     a, b2 = pair.split(">"); cmap[int(a)] = int(b2)
@@ -724,11 +761,36 @@ def extra_bevy(prop, tier, seed, profiles):
                 elif not p_ended_recently and q_ended:
                     f = dict(line=L, directive="relational chain fires only when its own animator ended", op=ops[L], got=o, want=impl[L - 1], ops=P.block_of(ops, L), other_animator=True)
                     fails.append(f)
+        last_frame = dict(before=prev, after=cur)
         moved_in_frame = cur["key"] != prev["key"]
         own_end = prev["state"] != 3 and cur["state"] == 3 and 3 in cur["ev"]
         prev, dirty, key_set = dict(cur, frame_state=cur["state"], own_end=own_end), False, False
         frame_key, other_ext, nframes = cur["key"], False, nframes + 1
     return dict(checked=checked, fails=fails, evaluations=checked, hist=hist)
+
+
+def secs_f32_of_ns(ns):
+    """Duration::as_secs_f32 = secs as f32 + nanos as f32 / 1e9, in binary32 (exact rational result)"""
+    from fractions import Fraction
+    secs, nanos = divmod(int(ns), 10 ** 9)
+    q = f32_round(f32_round(Fraction(nanos)) / f32_round(Fraction(10 ** 9)))
+    return f32_round(f32_round(Fraction(secs)) + q)
+
+
+def tl_timing(tlw):
+    """(delay, total duration or None for infinite, ulp of the total) of a `tl` line, as exact rationals"""
+    from fractions import Fraction
+    if tlw is None: return None
+    try:
+        dur = Fraction(f32(tlw[3])) if tlw[3] != "-" else Fraction(1)
+        delay = Fraction(f32(tlw[4])) if tlw[4] != "-" else Fraction(0)
+    except (ValueError, OverflowError):
+        return None
+    rep = tlw[5]
+    if rep == "i": return delay, None, max(abs(delay), Fraction(1, 10 ** 30)) * Fraction(1, 2 ** 23)
+    n = 0 if rep in ("-", "n") else int(rep)
+    total = delay + dur * (n + 1)
+    return delay, total, max(abs(total), Fraction(1, 10 ** 30)) * Fraction(1, 2 ** 23)
 
 
 def near_duration(tlw, pos_ns):
@@ -778,6 +840,9 @@ import re as _re
 
 def lex_lit(text):
     """(neg, mantissa, exp10, suffix, kind) of a Rust numeric literal's text, or None"""
+    mb = _re.fullmatch(r"b'(?:\\x([0-9a-fA-F]{2})|([^\\']))'([A-Za-z_][A-Za-z0-9_]*)?", text)
+    if mb:   # a byte literal counts as a number (its value), but not as an *integer* literal (no repeat counts)
+        return dict(mant=int(mb.group(1), 16) if mb.group(1) else ord(mb.group(2)), exp10=0, suffix=mb.group(3) or "", kind="byte", neg=False)
     m = _re.fullmatch(r"(\d[\d_]*)(?:\.(\d[\d_]*)?)?(?:[eE]([+-]?\d[\d_]*))?([A-Za-z_][A-Za-z0-9_]*)?", text)
     if not m: return None
     ip = m.group(1).replace("_", "")
@@ -808,13 +873,16 @@ def py_tokens(ws):
         t = ws[i]
         if t == "O:-" and i + 1 < len(ws) and ws[i + 1].startswith("L:"):
             l = lex_lit(ws[i + 1][2:])
-            if l is not None:
+            if l is not None and l["kind"] != "byte":
                 l["neg"] = True
                 toks.append(("lit", l)); i += 2; continue
         if t.startswith("L:"):
             toks.append(("lit", lex_lit(t[2:])))
         elif t.startswith("P:"): toks.append(("path", t[2:]))
-        elif t.startswith("B:"): toks.append(("braces", [f for f in t[2:].split(";") if f]))
+        elif t.startswith("B:"):
+            fs = [f for f in t[2:].split(";") if f]
+            # named fields only: `{ 0: 1.0 }` (a tuple-index member) is rejected by the macro
+            toks.append(("braces", fs) if all(f and not f[0].isdigit() for f in fs) else ("other", t))
         elif t.startswith("O:"): toks.append(("other", t))
         else: toks.append((t, None))
         i += 1
@@ -835,7 +903,7 @@ def py_config(toks, i):
     """documented reading of one configuration starting at token i; returns (record string, next index)"""
     c = dict(dur=None, delay=None, ease=None, rep=None, rev=False, kfs=[])
     def secs(l):
-        if l is None or l["kind"] not in ("int", "float"): raise Reject()
+        if l is None or l["kind"] not in ("int", "float", "byte"): raise Reject()
         return l
     while i < len(toks) and toks[i][0] != ",":
         k, v = toks[i]
